@@ -16,6 +16,9 @@ from jaxsmt.trace import trace
 from props.common import OnPolicyStep, empty_callback
 from props.rollout_ref import World, keys_of, onpolicy_step
 
+from props import stacks
+from props.C01 import fixed_inputs
+
 from lerax.algorithm import PPO
 from lerax.space import Box, Discrete
 from lerax.wrapper import TimeLimit
@@ -23,7 +26,12 @@ from lerax.wrapper import TimeLimit
 GAMMA = 0.5   # dyadic, so that the constant is exact in float32
 
 
-def make(kind, masked, limited):
+def make(kind, masked, limited, rescaled=False):
+    if rescaled:
+        # an action-space-changing wrapper under the algorithm: the action space the algorithm clips into is the STACK's ([RS_MIN, RS_MAX]), the
+        # environment underneath is driven by the affine image of the clipped action
+        env = stacks.build(["RescaleAction"] + (["TimeLimit"] if limited else []), "box")
+        return env, UFACPolicy(env, stateful=True)
     if kind == "discrete":
         base = UFEnv(Discrete(3), masked=masked)
     else:
@@ -39,19 +47,21 @@ def find(S, suffix):
     return S[c[0]]
 
 
-def cfg_name(kind, masked, limited):
-    return f"{kind}{'+mask' if masked else ''}{'+timelimit' if limited else ''}"
+def cfg_name(kind, masked, limited, rescaled=False):
+    return f"{kind}{'+mask' if masked else ''}{'+rescaleaction' if rescaled else ''}{'+timelimit' if limited else ''}"
 
 
-def world_of(it, S, kind, masked, limited):
+def world_of(it, S, kind, masked, limited, rescaled=False):
     box = None
-    if kind == "box":
+    if rescaled:
+        box = (stacks.frac(stacks.RS_MIN), stacks.frac(stacks.RS_MAX))
+    elif kind == "box":
         box = (list([n for n in S.items() if n[0].startswith("env") and n[0].endswith("action_space_low")][0][1]),
                list([n for n in S.items() if n[0].startswith("env") and n[0].endswith("action_space_high")][0][1]))
     theta_env = [v for n, v in S.items() if n.startswith("env") and n.endswith("theta")][0][()]
     theta_pol = S["pol_theta"][()]
     limit = find(S, "max_episode_steps")[()] if limited else None
-    return World(it, theta_env, theta_pol, limit=limit, kind=kind, masked=masked, box=box)
+    return World(it, theta_env, theta_pol, limit=limit, kind=kind, masked=masked, box=box, inner=["RescaleAction"] if rescaled else [])
 
 
 def step_keys(it, masked):
@@ -63,21 +73,21 @@ def step_keys(it, masked):
     return K
 
 
-def assumptions_for(S, kind, limited, K):
+def assumptions_for(S, kind, limited, K, rescaled=False):
     A = concrete.key_axioms(list(K.values()))
     if limited:
         A.append(find(S, "max_episode_steps")[()] >= 1)
         A.append(find(S, "st_env_state_step_count")[()] >= 0)
-    if kind == "box":
+    if kind == "box" and not rescaled:
         lo = [n for n in S.items() if n[0].startswith("env") and n[0].endswith("action_space_low")][0][1]
         hi = [n for n in S.items() if n[0].startswith("env") and n[0].endswith("action_space_high")][0][1]
         A += [l <= h for l, h in zip(lo, hi)]
     return A
 
 
-def check_step(ck, kind, masked, limited):
-    name = cfg_name(kind, masked, limited)
-    env, pol = make(kind, masked, limited)
+def check_step(ck, kind, masked, limited, rescaled=False):
+    name = cfg_name(kind, masked, limited, rescaled)
+    env, pol = make(kind, masked, limited, rescaled)
     algo = PPO(num_envs=1, num_steps=2, num_batches=1, num_epochs=1, gamma=GAMMA)
     cb = empty_callback()
     st = OnPolicyStep.example(env, pol, cb)
@@ -87,20 +97,21 @@ def check_step(ck, kind, masked, limited):
         return {"state": ns, "row": row}
     tr = trace(fn, env, pol, st, jr.key(0), argnames=["env", "pol", "st", "key"], label="AbstractActorCriticOnPolicyAlgorithm.step")
     it = Interp()
-    S = tr.symbols(it)
+    # (rescaled: the space bounds and the wrapper's range are the static dyadic configuration of props/stacks.py)
+    S = tr.symbols(it, given=fixed_inputs(tr, env) if rescaled else None)
     out = tr.run(it, S)
     if name == "discrete+timelimit":
         ck.encoded(tr)
         concrete.validate(ck, tr, n=2, seed=ck.seed, gen=lambda n, av, rng: (jnp.asarray(2) if n.endswith("max_episode_steps") else (jnp.asarray(int(rng.integers(0, 3))) if n.endswith("step_count") else None)))
-    w = world_of(it, S, kind, masked, limited)
+    w = world_of(it, S, kind, masked, limited, rescaled)
     K = step_keys(it, masked)
-    s = find(S, "st_env_state_env_state_s") if limited else find(S, "st_env_state_s")
+    s = [v for n, v in S.items() if n.startswith("st_env_state") and n.endswith("_s")][0]
     counters = [find(S, "st_env_state_step_count")[()]] if limited else []
     h = S["st_policy_state_h"]
     g = Fraction(GAMMA)
     R = onpolicy_step(w, s, counters, h, K, g)
-    A = assumptions_for(S, kind, limited, K)
-    sname = "state_env_state_env_state_s" if limited else "state_env_state_s"
+    A = assumptions_for(S, kind, limited, K, rescaled)
+    sname = [n for n in out if n.startswith("state_env_state") and n.endswith("_s")][0]
 
     def prove(oid, outs, extra=()):
         orc = {k: (arr0(v) if not isinstance(v, np.ndarray) else v) for k, v in outs.items()}
@@ -223,7 +234,7 @@ def check_rollout(ck, kind, limited, S_):
 def main():
     ck = Check("C04", "on-policy rollout record")
     ck.mode = "REAL"
-    ck.bound(rollout_steps=[2, 3, 4] if ck.thorough else [2], obs_dim=2, state_dim=2, actions=["Discrete(3) (with and without mask)", "Box(2) with symbolic bounds low<=high"],
+    ck.bound(rollout_steps=[2, 3, 4] if ck.thorough else [2], obs_dim=2, state_dim=2, actions=["Discrete(3) (with and without mask)", "Box(2) with symbolic bounds low<=high", "RescaleAction([-1,-1],[1,2]) over Box([-1,-2],[1,4]) (dyadic constants)"],
              time_limit="symbolic N >= 1, symbolic step count", gamma=GAMMA, envs="1 (lanes of a vectorised rollout are C12)")
     ck.stub("environment: Init, T, O, R, Term, Trunc, Mask uninterpreted", "policy: AV (action_and_value), V, PReset uninterpreted, with an explicit policy state",
             "PRNG keys: free algebra, distinct key terms are distinct keys", "callback: CallbackList([])")
@@ -231,6 +242,9 @@ def main():
     for kind, masked, limited in [("discrete", False, True), ("discrete", True, True), ("box", False, True), ("discrete", False, False), ("box", False, False)]:
         with ck.section(f"step@{cfg_name(kind, masked, limited)}"):
             check_step(ck, kind, masked, limited)
+    for limited in ((True,) if not ck.thorough else (True, False)):
+        with ck.section(f"step@{cfg_name('box', False, limited, True)}"):
+            check_step(ck, "box", False, limited, rescaled=True)
     for S_ in ([2, 3, 4] if ck.thorough else [2]):
         for kind in ("discrete", "box"):
             with ck.section(f"rollout@{kind},S={S_}"):
